@@ -248,3 +248,119 @@ class M(Model):
             if m.shape != want.shape or not np.array_equal(m, want):
                 out.append(("action_mask is not the legal set of the state shown", f"obs {m.astype(int).tolist()} rules {want.astype(int).tolist()}"))
         return out
+
+
+# ------------------------------------------------------------------ C09: episodes that end by completion
+# Random play never cleans a whole maze, so the generic C09 driver does not reach the "all tiles
+# clean -> LAST" transition.  The synthetic shard plays small mazes with a nearest-dirty-tile policy
+# (BFS on the host state, Hypothesis-drawn deviations) against the real env and compares every
+# transition with `predict`, exactly as the generic driver does.
+SYNTHETIC_SHARDS = {"quick": 1, "thorough": 2}
+_SYN_SIZES = [(3, 3, 2), (2, 5, 1), (4, 5, 2), (5, 5, 3), (3, 6, 1), (6, 4, 3)]
+_SYN_BUNDLES: dict = {}
+
+
+def bfs_first_move(passable, start, goals):
+    """First action (0..3 = up, right, down, left) of a shortest path from `start` to any cell of
+    the boolean array `goals` through True cells of `passable`; None if unreachable / already there."""
+    R, C = passable.shape
+    r0, c0 = int(start[0]), int(start[1])
+    if not (0 <= r0 < R and 0 <= c0 < C) or goals[r0, c0]:
+        return None
+    first = {(r0, c0): None}
+    q = deque([(r0, c0)])
+    while q:
+        r, c = q.popleft()
+        for a, (dr, dc) in enumerate(MOVES):
+            rr, cc = r + dr, c + dc
+            if 0 <= rr < R and 0 <= cc < C and passable[rr, cc] and (rr, cc) not in first:
+                first[(rr, cc)] = a if first[(r, c)] is None else first[(r, c)]
+                if goals[rr, cc]:
+                    return first[(rr, cc)]
+                q.append((rr, cc))
+    return None
+
+
+def _syn_bundle(cfg):
+    from vf import envs
+
+    if cfg not in _SYN_BUNDLES:
+        r, c, a = (int(x) for x in cfg.split("x"))
+        _SYN_BUNDLES[cfg] = envs.Bundle("Cleaner", f"syn_{cfg}", env=_cleaner_env(r, c, a)())
+    return _SYN_BUNDLES[cfg]
+
+
+def _syn_policy(model, noise):
+    def policy(hs, t):
+        grid = np.asarray(hs.grid)
+        legal = model.legal(hs)
+        acts = []
+        for k, loc in enumerate(model._locs(hs)):
+            z = noise[(t * model.A + k) % len(noise)]
+            a = None
+            if z % 6:  # 5 of 6: head for the nearest dirty tile
+                a = bfs_first_move(grid != WALL, loc, grid == DIRTY)
+            if a is None:
+                idx = np.flatnonzero(legal[k])
+                a = int(idx[z % len(idx)]) if len(idx) else 0
+            acts.append(a)
+        return np.asarray(acts)
+    return policy
+
+
+def synthetic_episode(b, ctx, model, key, policy, max_steps, extra):
+    """Play `policy(host_state, t) -> action` against the real env with the generic C09 monitor."""
+    from vf import envs, episodes
+    from vf import modelprops as mp
+
+    rec = episodes.Recorder(ctx, b, key, extra=extra)
+    mon = mp.C09Mon(b, ctx, model)
+    st_, ts = b.reset(envs.make_key(key))
+    hs, hts = episodes.host((st_, ts))
+    for t in range(max_steps):
+        a = policy(hs, t)
+        if a is None:
+            break
+        a = b.to_action(a)
+        rec.actions.append(a)
+        nst, nts = b.step(st_, a)
+        hn, hnt = episodes.host((nst, nts))
+        mon.on_step(rec, t, hs, hts, a, hn, hnt, False)
+        st_, ts, hs, hts = nst, nts, hn, hnt
+        if int(hnt.step_type) == 2:
+            return hs, True
+    return hs, False
+
+
+def synthetic_c09(ctx, item, seed, tier):
+    from vf import episodes, hyp
+    from vf.hyp import st
+
+    shard, shards = item.get("shard", 0), item.get("shards", 1)
+    sizes = [sz for i, sz in enumerate(_SYN_SIZES) if i % shards == shard]
+    for r, c, a in sizes:
+        cfg = f"{r}x{c}x{a}"
+        b = _syn_bundle(cfg)
+        model = M(b)
+
+        def one(key, noise, b=b, model=model, cfg=cfg):
+            extra = {"synthetic": True, "config": cfg}
+            hs, ended = synthetic_episode(b, ctx, model, key, _syn_policy(model, noise), model.T + 1, extra)
+            ctx.count("synthetic_episodes")
+            if ended and not (np.asarray(hs.grid) == DIRTY).any():
+                ctx.count("synthetic_episodes_all_clean")
+
+        hyp.drive({"key": episodes.keys(), "noise": st.lists(st.integers(0, 2**16), min_size=4, max_size=24)},
+                  one, seed + 101 * (r * 100 + c * 10 + a), 6 if tier == "quick" else 40)
+
+
+def synthetic_replay(case):
+    from vf import episodes
+    from vf import modelprops as mp
+    from vf.runner import Ctx
+
+    ctx = Ctx("C09", {})
+    b = _syn_bundle(case["config"])
+    rec = episodes.Recorder(ctx, b, case["key"], extra={"synthetic": True, "config": case["config"]})
+    episodes.run_actions(b, rec, case["actions"], mp.C09Mon(b, ctx, M(b)))
+    return [(f["oracle"], f["sig"], f["msg"]) for f in ctx.failures.values()]
